@@ -244,7 +244,7 @@ def handleProc (kv : List (String × String)) (impl : String) : String × String
   | some ex, some sb, some st, some l =>
     ("-", judgeProc { exit := ex, servedBefore := sb, started := st, lines := l, bad := (getN? ikv "bad").getD 0,
                       repro := (getN? ikv "repro").getD 0, timedOut := getS ikv "tmo" == "1",
-                      servedExit := (getN? ikv "served_exit").getD 0 })
+                      servedExit := (getN? ikv "served_exit").getD 0, since := (getN? ikv "since").getD 100000 })
   | _, _, _, _ => ("-", s!"fail:crash:{(impl.take 160).toString}")
 
 def handle : Handler := fun input impl =>
